@@ -82,7 +82,7 @@ LAMMPS_CASES = [
 ]
 
 
-def lammps_run(ch, case, reverse, wd, menu):
+def lammps_run(ch, case, reverse, wd, menu, kill_latency=0):
     import infretis.classes.engines.lammps as lmod
     from infretis.classes.orderparameter import Distance
     from infretis.classes.path import Path
@@ -109,6 +109,7 @@ def lammps_run(ch, case, reverse, wd, menu):
     progs = []
     boxes = [np.array([[0.0, b]] * 3) for b in case["boxes"]]
     world = fakeproc.World(ch, lambda cmd, cwd: fakeproc.LammpsProgram(cmd, cwd, boxes=boxes, record=progs), menu=menu)
+    world.kill_latency = kill_latency
     world.patch(lmod)
     path = Path(maxlen=case["maxlen"])
     s = System()
@@ -190,16 +191,19 @@ def _lammps_job(args):
     n = 0
     shapes = set()
     try:
-        def fn(ch):
-            r = lammps_run(ch, case, reverse, wd, menu)
-            return lammps_judge(r, case, reverse), r["world"].max_visible_per_poll, len(r["path"].phasepoints), r["raised"] is not None
+        # kill latency: a signalled LAMMPS (mpirun) is gone at once, or stays "running" for five more polls
+        for lat_ in (0, 5):
+            def fn(ch, lat_=lat_):
+                r = lammps_run(ch, case, reverse, wd, menu, kill_latency=lat_)
+                return lammps_judge(r, case, reverse), r["world"].max_visible_per_poll, len(r["path"].phasepoints), r["raised"] is not None
 
-        for ch, (bad, _, plen, raised) in explore(fn, prefix=[first]):
-            n += 1
-            shapes.add((tuple(ch.choices), plen, raised))
-            for clause, msg in bad:
-                viols.setdefault(f"lammps:{clause}", (f"case {ci} reverse={reverse} schedule {[menu[c] if lab == 'proc' else c for c, lab in zip(ch.choices, ch.labels)]}: {msg}",
-                                                      dict(kind="lammps", ci=ci, reverse=reverse, menu=list(menu), choices=ch.choices)))
+            for ch, (bad, _, plen, raised) in explore(fn, prefix=[first]):
+                n += 1
+                shapes.add((tuple(ch.choices), plen, raised, lat_))
+                for clause, msg in bad:
+                    viols.setdefault(f"lammps:{clause}", (f"case {ci} reverse={reverse} schedule {[menu[c] if lab == 'proc' else c for c, lab in zip(ch.choices, ch.labels)]}"
+                                                          f"{' (signalled process takes five polls to die)' if lat_ else ''}: {msg}",
+                                                          dict(kind="lammps", ci=ci, reverse=reverse, menu=list(menu), choices=ch.choices, kill_latency=lat_)))
     finally:
         scratch.rmtree(wd)
     return ("lammps", ci, reverse, first), n, len(shapes), viols
@@ -247,7 +251,7 @@ def replay(data):
         case = LAMMPS_CASES[data["ci"]]
         wd = scratch.mkdtemp("c12r")
         try:
-            r = lammps_run(Chooser(data["choices"]), case, data["reverse"], wd, tuple(data["menu"]))
+            r = lammps_run(Chooser(data["choices"]), case, data["reverse"], wd, tuple(data["menu"]), kill_latency=data.get("kill_latency", 0))
             return [(f"lammps:{c}", m) for c, m in lammps_judge(r, case, data["reverse"])]
         finally:
             scratch.rmtree(wd)
